@@ -23,6 +23,7 @@ def main(argv=None):
     ap.add_argument("pid")
     ap.add_argument("--tier", default=os.environ.get("VERIF_TIER", "quick"))
     ap.add_argument("--repo", default=os.environ.get("SOPHT_REPO", "/repo"))
+    ap.add_argument("--no-evidence", action="store_true", help="do not (re)write evidence/replay files (mutation self-test)")
     args = ap.parse_args(argv)
     pid = args.pid.upper()
     tier = args.tier if args.tier in ("quick", "thorough") else "quick"
@@ -30,6 +31,7 @@ def main(argv=None):
     from .report import Report
     from .values import Unsupported
     rep = Report(pid, LEVELS.get(pid, "other"), tier, seed)
+    rep.write_files = not args.no_evidence
     rep.assumptions = [ASSUMPTIONS[k] for k in ("A1", "A2", "A3", "A7", "A8")]
     try:
         os.environ["SOPHT_REPO"] = args.repo
